@@ -668,7 +668,8 @@ func TestVerif_C12_UDPMuxModel(t *testing.T) {
 			drainAll(where)
 			// address bindings of removed/closed connections must be gone. The mux's close watcher removes them
 			// asynchronously (registration first, bindings second), so this is a bounded wait, not a snapshot.
-			if !muxClose {
+			// (Also after mux.Close: the watchers of the connections it closed forget their bindings.)
+			{
 				stale := func() (netip.AddrPort, *c12ModelConn) {
 					mux.addressMapMu.Lock()
 					defer mux.addressMapMu.Unlock()
